@@ -210,6 +210,13 @@ def check_case(ctx, case):
                     exp_live |= {os.path.join(inside, "ds.parq")}
                     ghost = sorted(os.path.relpath(c, inside) for c in live
                                    if os.path.realpath(c) not in exp_live)
+                    if mode == "ext-uuid-parent":
+                        # the empty {uuid} directory above the per-partition directories is reported once, by the
+                        # listing clause below (known finding F29); anything else still counts here
+                        import re as _re
+                        ghost = [g_ for g_ in ghost if not (_re.fullmatch(r"tmp/[0-9a-f-]{36}", g_)
+                                                            and os.path.isdir(os.path.join(inside, g_))
+                                                            and not os.listdir(os.path.join(inside, g_)))]
                     if ghost:
                         ctx.violation("strace", f"pack_to_parquet:syscall-log:created-and-still-present:{mode}", w,
                                       expected=[], observed=ghost[:10], case=case)
